@@ -101,7 +101,9 @@ CHECKS = {
         "convex combination of the 2^n corners with product weights and every convex combination of corners lies in the box, "
         "the affine model commutes with convex combinations, hence a target is a convex combination of the corner images "
         "(what the code tests) iff some in-bound intensity vector reproduces it; a separating hyperplane for the corner images "
-        "refutes reproducibility; offset subtraction does not change membership. Every run builds targets WITH exact "
+        "refutes reproducibility; offset subtraction does not change membership; C03Chroma.lean: the chromaticity of a target is in "
+        "the hull of the corner chromaticities iff some positive multiple of the target is in the gamut hull (chromatic_mem_iff), "
+        "independent of the target's intensity. Every run builds targets WITH exact "
         "certificates (product weights / supporting hyperplanes, verified in Q by the Lean checkers inHullCert and sepCert) for "
         "all configurations (finite/infinite ub, lb>0, flat gamuts, dichromats, K incl. signed matrices, baseline, normalised "
         "membership, membership after re-registration) and compares dreye's booleans with them.",
@@ -174,15 +176,18 @@ CHECKS = {
         "convex combination of the cloud (with C03: a capture reproducible by in-bound intensities); L1-normalised non-negative "
         "engine points and volume fractions are valid probability vectors; and (measure theory, ENNReal) choosing piece i with "
         "probability vol(S_i)/vol(U S) and a uniform point inside it lands in any measurable region A with probability "
-        "vol(A n U S)/vol(U S) whenever the pieces overlap in null sets. Every run checks on dreye's samples: exact count, "
+        "vol(A n U S)/vol(U S) whenever the pieces overlap in null sets; C13Blocks.lean: for every list of per-simplex counts the "
+        "row blocks written by the quasi-Monte-Carlo loop tile 0..n without gap or overlap and the simplex index of every row "
+        "(np.repeat) is the block that wrote its weights. Every run compares the hook-recorded blocks, counts and simplex "
+        "indices of every QMC call with that model, and checks on dreye's samples: exact count, "
         "inside every facet of an independently computed hull, identical arrays for identical seeds, l1 totals, chromatic "
         "membership for l1 samples, and for the default engine with n = 10^4 the sample mean against the exact centroid and "
         "half-space fractions against volume fractions at 6 sigma.",
         "Trusted: Lean kernel; that Delaunay simplices tile the hull with null overlaps, that Generator.choice realises the "
         "probabilities and that Dirichlet(1,..,1) weights are uniform on a simplex are engine facts (named hypotheses of the "
         "uniformity theorem); uniformity of the real sampler is statistical evidence (fixed seeds, 6 sigma), not proof; "
-        "determinism per seed is checked by byte comparison; no model/code correspondence beyond these predicates (the "
-        "function exposes no intermediate values).",
+        "determinism per seed is checked by byte comparison; model/code correspondence exists for the QMC bookkeeping (hook) "
+        "only - the default branch exposes no intermediate values and is covered by the predicates.",
         "5/C13"),
     "C14": (
         "Lean 4 proof (invariant by induction over registration histories of any length; refinement to a stateless reference) + step-by-step correspondence on exhaustive and random histories",
@@ -192,11 +197,13 @@ CHECKS = {
         "reference answers it from the registered values; hence two histories ending in the same registered values give "
         "identical answers; each call replaces its own value(s) and nothing else (register_bounds keeps the other bound, "
         "register_system resets the bounds, the adaptation calls read the current baseline, register_targets(B, W) replaces the "
-        "targets AND the fitting weights - W, or the constructor's w when W is not given, never weights of an earlier call). "
+        "targets AND the fitting weights - W, or the constructor's w when W is not given, never weights of an earlier call; "
+        "fit() of the registered targets - modelled with the engine's fitted capture as a parameter - only overwrites the working "
+        "copy, and register_targets after it restores exactly the state of registering alone: targets_after_fit). "
         "Queries carry no state in the model. "
         "Every run drives a real ReceptorEstimator through all histories up to a bounded length and random longer ones with "
         "interleaved query bundles, compares A, K, baseline, bounds, system/relative captures, in_system, registered targets and "
-        "fitting weights after EVERY step with "
+        "fitting weights and the working copy after EVERY step with "
         "the Lean state machine, compares engine-backed queries with a fresh twin at the end, and hashes caller arrays.",
         "Trusted: Lean kernel; engine-backed queries (gamut test, ranges, fits, sampling) are not in the Lean model - they are "
         "compared with a fresh twin estimator (metamorphic); add=True with a matrix K is not modelled (the harness avoids it); "
@@ -338,7 +345,7 @@ def main():
     print("MANIFEST.json: %d checks, %d not claimed" % (len(checks), len(man["not_applicable"])))
 
 
-HOOK_COMMITS = ['2c6c02d', '4ac3a8f', '6f901f5']
+HOOK_COMMITS = ['2c6c02d', '4ac3a8f', '6f901f5', '010d0aa']
 
 if __name__ == "__main__":
     main()
